@@ -710,12 +710,12 @@ def S3_normalisation(rep, flow: Flow):
 BUILDERS = ["tomography.stabilizer_measurement_circuit", "tomography.full_state_tomography_circuits"]
 
 
-def W1_W2_builders(rep, flow: Flow, want=("W1", "W2")):
+def W1_W2_builders(rep, flow: Flow, want=("W1", "W2"), builders=None):
     if "W1" in want:
-        rep.rule("W1", "the readout record stored with each measurement circuit carries the caller's measured-qubit list (same order) and the full register width", floor=2)
+        rep.rule("W1", "the readout record stored with each measurement circuit carries the caller's measured-qubit list (same order) and the full register width", floor=len(builders or BUILDERS))
     if "W2" in want:
-        rep.rule("W2", "the readout circuit stored in the metadata of a measurement circuit is the very object that was composed into that circuit", floor=2)
-    for fq in BUILDERS:
+        rep.rule("W2", "the readout circuit stored in the metadata of a measurement circuit is the very object that was composed into that circuit", floor=len(builders or BUILDERS))
+    for fq in (builders or BUILDERS):
         f = flow.prog.func(fq)
         rets = [r for r in flow.paths(fq) if r.kind == "return"]
         if not rets:
@@ -745,6 +745,8 @@ def W1_W2_builders(rep, flow: Flow, want=("W1", "W2")):
                 if not comp:
                     raise AnalysisError(f"{fq}: the returned circuit is not the result of a compose (vocabulary)")
                 _, _, other_oid, qkey, _, cwhere = comp[-1]
+                if other_oid is None:
+                    raise AnalysisError(f"{fq}: the value composed into the circuit at {cwhere} is not a circuit the interpreter can model (unknown producer): W1/W2 cannot be decided")
                 circ_field = [val for val in rec.fields.values() if isinstance(val, Ref) and r.heap[val.oid].kind == "circuit"]
                 if "W2" in rep.rules:
                     if len(circ_field) == 1 and circ_field[0].oid == other_oid:
